@@ -170,8 +170,11 @@ func (p *Proc) Process(ctx context.Context, recs []opencdc.Record) []sdk.Process
 			k, _ := strconv.Atoi(kind[5:])
 			mr := make(sdk.MultiRecord, 0, k)
 			for j := 0; j < k; j++ {
-				piece := withMeta(stamped, TagKey, fmt.Sprintf("%s/%d", tag, j))
+				piece := stamped
 				if k > 1 {
+					// a real split: pieces get their own tag and position; a one-element
+					// MultiRecord is not a split (the engine treats it as a modified record)
+					piece = withMeta(stamped, TagKey, fmt.Sprintf("%s/%d", tag, j))
 					piece.Position = opencdc.Position(fmt.Sprintf("%s.%d", string(r.Position), j))
 				}
 				mr = append(mr, piece)
